@@ -8,7 +8,7 @@ import re
 from ..cfg import build_cfg, calls_in, node_calls
 from ..core import Ctx, property_info, rule
 from ..model import AnalysisError, ClassInfo, FuncInfo, const_str, walk_no_nested
-from ..q import A, Dispatch, call_name_of, control_deps, flow_conditions, flows, names_from_calls, str_template, stores, unparse
+from ..q import A, Dispatch, call_name_of, control_deps, flow_conditions, flows, names_from_calls, node_containing, raw_forms, expand_at, str_template, stores, unparse
 
 DT = "xsdata.models.datatype"
 DATES = "xsdata.utils.dates"
@@ -89,6 +89,8 @@ def validate_before_construct(ctx: Ctx) -> None:
             for v in vnodes:
                 for c in node_calls(v):
                     if isinstance(c.func, ast.Name) and c.func.id == fn_name:
+                        if any(isinstance(a, ast.Starred) for a in c.args):
+                            continue  # *args: the number of components is not visible in the call
                         ctx.ob(f"{fi.qual.split(':')[1]}: {fn_name} receives {len(c.args)} components", len(c.args) == (3 if need == "date" else 4), at=fi, node=c,
                                msg="wrong number of components validated")
 
@@ -316,8 +318,9 @@ def directive_coverage(ctx: Ctx) -> None:
     sk = ctx.repo.func(f"{DATES}:DateTimeParser.skip")
     g = build_cfg(sk.node)
     adv = [g.node_of(st) for st, tgt, _ in stores(sk.node) if unparse(tgt) == "self.vidx"]
-    tests = [t for t in g.nodes if t.kind == "test" and "self.peek() != char" in unparse(t.ast)]
-    ok = bool(adv) and bool(tests) and all(a is not None and g.only_if(a.id, t.id, False) for a in adv for t in tests)
+    tests = [t for t in g.nodes if t.kind == "test" and isinstance(t.ast, ast.Compare) and len(t.ast.ops) == 1 and isinstance(t.ast.ops[0], (ast.Eq, ast.NotEq))
+             and {unparse(t.ast.left), unparse(t.ast.comparators[0])} == {"self.peek()", "char"}]
+    ok = bool(adv) and bool(tests) and all(a is not None and g.only_if(a.id, t.id, isinstance(t.ast.ops[0], ast.Eq)) for a in adv for t in tests)
     ctx.ob("skip: advances only over the expected literal", ok, at=sk, construct="literal match", msg="a wrong separator would be accepted")
 
 
@@ -380,9 +383,15 @@ def arity_agreement(ctx: Ctx) -> None:
             targets = None
             for st, tgt, val in stores(fi.node):
                 pass
+            starred = False
             for st in walk_no_nested(fi.node):
                 if isinstance(st, ast.Assign) and st.value is c and isinstance(st.targets[0], (ast.Tuple, ast.List)):
                     targets = len(st.targets[0].elts)
+                    starred = any(isinstance(e, ast.Starred) for e in st.targets[0].elts)
+            if targets is None or starred:
+                # the result is not unpacked into a fixed number of targets here (indexed, starred, passed on): the arity clause has no instance
+                ctx.ob(f"{fi.qual.split(':')[1]}: DateFormat.{name}: result is not unpacked into a fixed tuple (no arity to compare)", True, at=fi, node=c, construct=f"unpack {name}")
+                continue
             ctx.ob(f"{fi.qual.split(':')[1]}: DateFormat.{name} yields {expected} values = unpack arity", targets == expected, at=fi, node=c,
                    construct=f"unpack {name}", msg=f"format yields {expected} values but {targets} targets are unpacked (ValueError for every input)")
     ctx.floor("parse_date_args call sites", n, 8)
@@ -407,22 +416,45 @@ def duration_regex_groups(ctx: Ctx) -> None:
     fi = ctx.repo.func(f"{DT}:XmlDuration._parse_interval")
     targets = None
     for st in walk_no_nested(fi.node):
-        if isinstance(st, ast.Assign) and isinstance(st.targets[0], ast.Tuple) and "groups()" in unparse(st.value):
+        if isinstance(st, ast.Assign) and isinstance(st.targets[0], ast.Tuple) and "groups()" in unparse(st.value) and not any(isinstance(e, ast.Starred) for e in st.targets[0].elts):
             targets = [unparse(t) for t in st.targets[0].elts]
-    ctx.ob(f"xml_duration_re has {groups} groups = unpack arity", targets is not None and len(targets) == groups, at=fi, construct="groups arity",
-           msg=f"regex has {groups} groups, unpacking has {len(targets) if targets else None} targets")
-    ret = [c for c in calls_in(fi.node) if call_name_of(c) == "TimeInterval"]
-    kw = {k.arg: k.value for c in ret for k in c.keywords if k.arg}
-    names_in_kw = {k: {n.id for n in ast.walk(v) if isinstance(n, ast.Name)} - {c.func.id for c in ast.walk(v) if isinstance(c, ast.Call) and isinstance(c.func, ast.Name)} for k, v in kw.items()}
-    ctx.ob("first group is the sign", bool(targets) and pattern.startswith("^([-]?)P") and targets[0] in names_in_kw.get("negative", set()), at=fi, construct="sign group first",
-           msg="sign group is not the first group / not what `negative` is computed from")
+    if targets is not None:
+        ctx.ob(f"xml_duration_re has {groups} groups = unpack arity", len(targets) == groups, at=fi, construct="groups arity",
+               msg=f"regex has {groups} groups, unpacking has {len(targets)} targets")
+    else:
+        idx = [x.slice.value for x in walk_no_nested(fi.node) if isinstance(x, ast.Subscript) and isinstance(x.slice, ast.Constant) and isinstance(x.slice.value, int)]
+        ctx.ob(f"xml_duration_re has {groups} groups: every constant group index used is in range", all(-groups <= i < groups for i in idx), at=fi, construct="groups arity",
+               msg=f"regex has {groups} groups, indexes used {sorted(idx)}")
+    g = build_cfg(fi.node)
+    ret = [(node_containing(g, c), c) for c in calls_in(fi.node) if call_name_of(c) == "TimeInterval"]
+
+    def group_indexes(where, e: ast.expr) -> set[int]:
+        """Indexes i such that the value can be (built from) match.groups()[i]."""
+        out: set[int] = set()
+        for leaf, chain in flows(fi, where, e) if where is not None else []:
+            for x in ast.walk(leaf):
+                if isinstance(x, ast.Subscript) and isinstance(x.slice, ast.Constant) and isinstance(x.slice.value, int):
+                    base = expand_at(fi, chain[-1] if chain else where, x.value)
+                    if isinstance(base, ast.Call) and call_name_of(base) == "groups":
+                        out.add(x.slice.value)
+                elif isinstance(x, ast.Name):
+                    for l2, c2 in flows(fi, chain[-1] if chain else where, x):
+                        if isinstance(l2, ast.Subscript) and isinstance(l2.slice, ast.Constant) and isinstance(l2.slice.value, int) and isinstance(l2.value, ast.Call) and call_name_of(l2.value) == "groups":
+                            out.add(l2.slice.value)
+        return out
+
+    kw = {k.arg: (n, k.value) for n, c in ret for k in c.keywords if k.arg}
+    sign_idx = group_indexes(*kw["negative"]) if "negative" in kw else set()
+    ctx.ob("first group is the sign", pattern.startswith("^([-]?)P") and sign_idx <= {0}, at=fi, construct="sign group first",
+           msg=f"`negative` is computed from group(s) {sorted(sign_idx)}, the sign is group 0")
     ctx.ob("regex is anchored at both ends", pattern.startswith("^") and pattern.endswith("$"), at=fi, construct="anchors", msg="unanchored duration regex")
-    # the designator order of the regex is the order of the unpacked groups, and each TimeInterval field is built from the group at its designator's position
+    # the designator order of the regex is the order of the groups, and each TimeInterval field is built from the group at its designator's position
     order = re.findall(r"\)([YMDHS])\)\?", pattern.replace("(?:T", ""))
     want = ["years", "months", "days", "hours", "minutes", "seconds"]
-    ok = order == ["Y", "M", "D", "H", "M", "S"] and bool(targets) and len(targets) >= 7 and all(names_in_kw.get(w) == {targets[i + 1]} for i, w in enumerate(want))
-    ctx.ob("designators Y M D H M S bind years..seconds in this order: each TimeInterval field is built from the group of its designator", ok, at=fi,
-           construct="designator order", msg=f"designator order {order}; fields built from {names_in_kw} with groups {targets}")
+    got = {w: group_indexes(*kw[w]) for w in want if w in kw}
+    ok = order == ["Y", "M", "D", "H", "M", "S"] and all(not got.get(w) or got[w] == {i + 1} for i, w in enumerate(want))
+    ctx.ob("designators Y M D H M S bind years..seconds in this order: each TimeInterval field is built from the group of its designator (where the group is identifiable)", ok, at=fi,
+           construct="designator order", msg=f"designator order {order}; fields built from groups {got}")
 
 
 # functions whose positional parameters are named after calendar components
@@ -472,6 +504,8 @@ def argument_name_agreement(ctx: Ctx) -> None:
                 continue
             for i, a in enumerate(c.args):
                 name = None
+                if isinstance(a, ast.Starred):
+                    break  # positions after *args are unknown
                 if isinstance(a, ast.Name):
                     name = by_directive.get(a.id, a.id)
                 elif isinstance(a, ast.Attribute) and isinstance(a.value, ast.Name) and a.value.id in ("self", "obj"):
@@ -518,6 +552,8 @@ def range_tables(ctx: Ctx) -> None:
             hi_node = c.comparators[1]
             hi = hi_node.value if isinstance(hi_node, ast.Constant) else unparse(hi_node)
             found += 1
+            if var != "day" and var not in SPEC_RANGES:
+                continue  # not a calendar component by name (e.g. the variable of a loop over several components): no table entry to compare with
             if var == "day":
                 ok = lo == 1 and (hi in names_from_calls(fi.node, ("monthlen",)) or str(hi).replace(" ", "") == "monthlen(year,month)")
                 # and the failing side raises
@@ -536,9 +572,10 @@ def range_tables(ctx: Ctx) -> None:
             if h24:
                 nz = {}
                 for t in g.nodes:
-                    if t.kind == "test" and isinstance(t.ast, ast.Compare) and isinstance(t.ast.ops[0], ast.NotEq) and isinstance(t.ast.comparators[0], ast.Constant) \
+                    if t.kind == "test" and isinstance(t.ast, ast.Compare) and len(t.ast.ops) == 1 and isinstance(t.ast.ops[0], (ast.NotEq, ast.Eq)) and isinstance(t.ast.comparators[0], ast.Constant) \
                             and t.ast.comparators[0].value == 0 and g.only_if(t.id, h24[0].id, True):
-                        tgt = [m for m, lab in g.succ[t.id] if lab == "true" and isinstance(g.nodes[m].ast, ast.Raise)]
+                        lab_fail = "true" if isinstance(t.ast.ops[0], ast.NotEq) else "false"
+                        tgt = [m for m, lab in g.succ[t.id] if lab == lab_fail and isinstance(g.nodes[m].ast, ast.Raise)]
                         if tgt:
                             nz[unparse(t.ast.left)] = True
                 ok = set(nz) >= {"minute", "second"} and any("second" in k and k != "second" for k in nz)
